@@ -23,6 +23,19 @@ ALPHABET_CHARS = [
     '\\', '{', '}', '$', '&', '\n', '\r', '#', '^', '_', '\x00', ' ', '\t',
     'a', 'Z', '1', '.', '|', '*', '~', '%', '\x7f', '[', ']', '(', ')', ',',
     '<', '>', 'é', '\U0001F600',
+    # beyond ASCII: one representative per kind of Unicode code point a category
+    # table may or may not know about
+    '\u00a0',      # no-break space (Zs)
+    '\u2028',      # line separator (Zl)
+    '\u200d',      # zero width joiner (Cf)
+    '\u0301',      # combining acute accent (Mn)
+    '\u4e2d',      # CJK letter (Lo)
+    '\u0436',      # Cyrillic letter (Ll)
+    '\ue000',      # private use (Co)
+    '\u0378',      # unassigned (Cn)
+    '\uffff',      # noncharacter (Cn)
+    '\U0010ffff',  # last code point (Cn)
+    '\ud800',      # lone surrogate (Cs)
 ]
 ALPHABET_NAMES = [
     'begin', 'end', 'item', 'verbatim', 'lstlisting', 'left', 'right', 'big',
@@ -261,8 +274,11 @@ class SimReader:
                 _SCRATCH = tempfile.mkdtemp(prefix='tsim-files-')
                 atexit.register(shutil.rmtree, _SCRATCH, True)
             path = os.path.join(_SCRATCH, 'src.tex')
-            with open(path, 'w', encoding='utf-8', newline='') as fp:
-                fp.write(text)
+            try:
+                with open(path, 'w', encoding='utf-8', newline='') as fp:
+                    fp.write(text)
+            except UnicodeEncodeError:      # lone surrogates cannot be written to a file
+                return io.StringIO(text, newline='')
             self._fh = open(path, encoding='utf-8')
             return self._fh
         if f == 'lines':
